@@ -13,6 +13,16 @@ Property theorems over Model/Layout.lean (helper lemmas private).
                        = t iff already sorted (F12 exactly, with the witness as example)
   save_load_param_own  C04 ∘ C05: same shape, and every object reads back its own parameter value up to `normalise`
                        (param_lookup_own + Pack.write_read_faithful)
+  get_write_same, get_write_other, write_occupied, write_free, history_loads, history_keeps, writeSkip_keeps,
+  multi_statepoint_roundtrip   one file = map group name → statepoint: writing B never changes what A loads to; every
+                       statepoint of any accepted write history loads to the state at ITS write (tree sorted, materials /
+                       temperatures, parameters); an occupied address is refused
+  rows_cols_roundtrip, cols_roundtrip   the round trip on the COLUMNS of the layout group (type, serialNum, numChildren,
+                       indexInData, gridIndex + grid table, locationType + location) for every tree
+  gridTable_nodup, gridTable_sub   the de-duplicated grid table: no key twice, only grids of the objects
+  compLt_asymm         `Component.__lt__` (outer then inner diameter) is asymmetric: the child-order theorems cover blocks
+  assignBlueprints_noop, load_param_saved_not_blueprint   parameter assignment order on load: `_readParams` then
+                       `_assignBlueprintsParams` (whose class-object lookup misses the name-keyed dict): saved value wins
 Parameter value encoding is C05; h5py, blueprint re-construction of components, grids' `reduce()` and the child
 sort key are parameters (correspondence / whole-stack oracle only).
 -/
